@@ -88,7 +88,8 @@ def execute(layout, names, prefix=None, serial=None):
 
 
 def task(args):
-    layout, names, bound = args
+    layout, names, bound = args[:3]
+    sub = args[3] if len(args) > 3 else None
     from ..procs import explore, ScheduleError
     vios = []
     outcomes = set()
@@ -116,7 +117,7 @@ def task(args):
                     f'serial order: A;B gives {serial[0]}, B;A gives '
                     f'{serial[1]}; schedule: {mt.explain(ex)}', replay=rep))
             return ex, None
-        st = explore(run, bound)
+        st = explore(run, bound, prefixes=sub)
     except ScheduleError as exc:
         return {'error': repr(exc), 'names': names}
     finally:
@@ -129,5 +130,7 @@ def tasks(tier):
     T = [('++', pr, 1) for pr in PAIRS]
     if tier != 'quick':
         T += [('fs', pr, 1) for pr in PAIRS]
-        T += [('++', pr, 2) for pr in PAIRS[:6]]
+        for pr in PAIRS[:6]:
+            T += [('++', pr, 2, ch) for ch in mt.split_root(
+                lambda pr=pr: execute('++', pr, prefix=[])[0], 2)]
     return T
